@@ -44,4 +44,7 @@ Step(c) ==
                                             ELSE IF st' = "warning"
                                               THEN (IF rc0[1] = -1 THEN <<total, rc0[2]>> ELSE rc0)
                                             ELSE <<(IF rc0[1] = -1 THEN total ELSE rc0[1]), total>>)
+Reset == /\ since' = 0 /\ st' = "None" /\ recs' = NoRecs /\ nerr' = 0 /\ curr' = 0 /\ dmean' = 0 /\ dstd' = 0 /\ maxnum' = 0
+         /\ UNCHANGED <<cfg, total>>
+PendingReset == st = "drift" /\ Reset
 ==========================================================================
